@@ -133,7 +133,7 @@ impl Case {
     fn parse(line: &str) -> Option<Case> {
         let w = words(line);
         if w.len() < 7 { return None; }
-        let (tmo, imm) = match w[0] { "tmo" => (true, false), "wake" => (false, false), "imm" => (true, true), _ => return None };
+        let (tmo, imm) = match w[0] { "tmo" | "trk" => (true, false), "wake" | "race" => (false, false), "imm" => (true, true), _ => return None };
         let kind = match w[2] { "credit" => Kind::Credit(w[3].parse().ok()?), "reconnect" => Kind::Reconnect, _ => return None };
         let window = w[4].parse().ok()?;
         let setup = parse_ops(w[5].strip_prefix("setup=")?)?;
@@ -208,6 +208,8 @@ struct Exec {
     cleanup_missed: bool,
     /// the waiter's condition in the real object right after the setup (before the waiter starts)
     entry_want: Vec<Got>,
+    /// watchdog that was applied to "must return" (seconds; for the failure text)
+    watchdog_s: u64,
 }
 
 /// Run one case against the real `TransferControl`.
@@ -342,7 +344,7 @@ fn execute(c: &Case, rng: &mut Rng, tmo_ms: u64) -> Exec {
     if !cleanup_missed { let _ = waiter.join(); }
 
     let order = if c.seq { Some(snaps.iter().map(|s| s.thread).collect()) } else { None };
-    Exec { got, fin: (sent, acked, cancelled), order, must_return, snaps, results, parked_seen, tmo_ok, cleanup_missed, entry_want }
+    Exec { got, fin: (sent, acked, cancelled), order, must_return, snaps, results, parked_seen, tmo_ok, cleanup_missed, entry_want, watchdog_s: WATCHDOG.as_secs() }
 }
 
 /// Is a resume staged after all ops (ignoring that the waiter may have consumed it)?  Uses the real
@@ -412,7 +414,7 @@ fn oracles(out: &mut Out, c: &Case, e: &Exec, line: &str) {
     }
     if e.must_return && e.got == Got::Parked {
         out.oracle_fail(&format!("{}.missed_wakeup", fam),
-            &format!("all ops done, condition holds in the final state (sent={}, acked={}, cancelled={}), waiter still asleep after 10 s", e.fin.0, e.fin.1, e.fin.2), &ops);
+            &format!("all ops done, condition holds in the final state (sent={}, acked={}, cancelled={}), waiter still asleep after {} s", e.fin.0, e.fin.1, e.fin.2, e.watchdog_s), &ops);
     }
     // value checks that need no model
     let all_ops = || c.threads.iter().flatten();
@@ -601,6 +603,293 @@ fn gen_imm(rng: &mut Rng) -> Case {
     Case { tmo: true, imm: true, kind: if reconnect { Kind::Reconnect } else { Kind::Credit(w.len) }, window: w.window, setup, threads: vec![], seq: false }
 }
 
+
+// ------------------------------------------------------------------------------------------
+// `trk`: a trickle of wake-ups that never satisfy the condition must not push the timeout out
+// ------------------------------------------------------------------------------------------
+/// Slack granted beyond the deadline before a Timeout counts as late (the correct code returns at the
+/// deadline plus scheduling latency; code that re-arms its timeout on every wake-up never returns while
+/// the trickle lasts).
+const TRK_SLACK: Duration = Duration::from_secs(3);
+
+struct TrkResult { line_head: String, kind: Kind, ops: Vec<Op>, got: Got, fin: (u64, u64, bool), fails: Vec<(String, String)>, lateness_ms: u128, d_ms: u64 }
+
+fn trk_case(rng: &mut Rng) -> (Kind, u64, Vec<Op>, u64) {
+    let reconnect = rng.chance(1, 2);
+    let window = rng.range(1, 8);
+    let len = rng.range(1, 4);
+    let setup = vec![Op::Push(0, 1000), Op::Sent(1000)];
+    (if reconnect { Kind::Reconnect } else { Kind::Credit(len) }, window, setup, 300 + rng.below(101))
+}
+
+/// Runs in its own thread. `kind/window/setup` as in the op line; the trickle is generated here:
+/// tick j = `ack:0:j+1` (advances the ack, so it notifies, and stays far from freeing credit), every
+/// fourth tick preceded by a `sent`.
+fn run_trickle(kind: Kind, window: u64, setup: Vec<Op>, d_ms: u64, seed: u64) -> TrkResult {
+    let mut rng = Rng::new(seed);
+    let fam = match kind { Kind::Credit(_) => "wake.credit", Kind::Reconnect => "wake.reconnect" };
+    let (k, len) = match &kind { Kind::Credit(l) => ("credit", *l), Kind::Reconnect => ("reconnect", 0) };
+    let line_head = format!("{} {} {} setup={}", k, len, window, show_ops(&setup));
+    let tc = TransferControl::new(window);
+    for op in &setup { apply(&tc, op); }
+    let d = Duration::from_millis(d_ms);
+    let started: Arc<Mutex<Option<Instant>>> = Arc::new(Mutex::new(None));
+    let (tx, rx) = mpsc::channel::<(Got, Instant, Instant, Instant)>();
+    let waiter = {
+        let (tc, kind, started) = (tc.clone(), kind.clone(), started.clone());
+        std::thread::spawn(move || {
+            let t0 = Instant::now();
+            let deadline = t0 + d;
+            *started.lock().unwrap() = Some(t0);
+            let r = catch(|| match kind {
+                Kind::Credit(len) => match tc.wait_for_credit(len, deadline) {
+                    Ok(()) => Got::Ok,
+                    Err(CreditError::Cancelled(r)) => Got::Cancelled(r),
+                    Err(CreditError::Timeout) => Got::Timeout,
+                },
+                Kind::Reconnect => match tc.wait_for_reconnect(d) {
+                    ReconnectOutcome::ResumeReady(p) => Got::Resume(p.resume_at_offset),
+                    ReconnectOutcome::Cancelled(r) => Got::Cancelled(r),
+                    ReconnectOutcome::Timeout => Got::Timeout,
+                },
+            });
+            let t1 = Instant::now();
+            let _ = tx.send((r.unwrap_or(Got::Panic), t0, deadline, t1));
+        })
+    };
+    // the waiter's own start instant (it may be scheduled late: nothing is measured from our clock)
+    let wd = Instant::now() + WATCHDOG;
+    let t0 = loop {
+        if let Some(t) = *started.lock().unwrap() { break Some(t); }
+        if Instant::now() > wd { break None; }
+        std::thread::yield_now();
+    };
+    let mut ops = Vec::new();
+    let mut fails = Vec::new();
+    let mut res = None;
+    if let Some(t0) = t0 {
+        let hard_limit = t0 + d + TRK_SLACK;
+        let mut j = 0u64;
+        loop {
+            let period = d / 4 + Duration::from_micros(rng.below(20000));
+            match rx.recv_timeout(period) { Ok(r) => { res = Some(r); break; } Err(_) => {} }
+            if Instant::now() > hard_limit { break; }
+            if j < 400 {
+                if j % 4 == 3 { let op = Op::Sent(1000 + j); apply(&tc, &op); ops.push(op); }
+                let op = Op::Ack(0, j + 1);
+                apply(&tc, &op);
+                ops.push(op);
+                j += 1;
+            }
+        }
+    }
+    let (sent, acked) = catch(|| tc.offsets()).unwrap_or((0, 0));
+    let cancelled = catch(|| tc.is_cancelled()).unwrap_or(true);
+    let mut lateness_ms = 0;
+    let got = match res {
+        Some((g, t0, deadline, t1)) => {
+            lateness_ms = t1.saturating_duration_since(deadline).as_millis();
+            if g != Got::Timeout {
+                fails.push((format!("{}.timeout.wrong_value", fam), format!("condition never held, wait returned {}", g.show())));
+            } else if t1 < deadline || t1.saturating_duration_since(t0) < d {
+                fails.push((format!("{}.timeout.early", fam), "Timeout returned before the deadline".to_string()));
+            } else if t1.saturating_duration_since(deadline) > TRK_SLACK {
+                fails.push((format!("{}.timeout.late", fam), format!("Timeout returned {} ms after a {} ms deadline while non-enabling wake-ups kept arriving", lateness_ms, d_ms)));
+            }
+            g
+        }
+        None => {
+            fails.push((format!("{}.timeout.late", fam), format!(
+                "{} ms deadline, {} non-enabling wake-ups (one every ~{} ms): still asleep {} s past the deadline - every wake-up re-armed the timeout",
+                d_ms, ops.len(), d_ms / 4, TRK_SLACK.as_secs())));
+            let _ = catch(|| tc.cancel("cleanup"));
+            match rx.recv_timeout(WATCHDOG) {
+                Ok(_) => {}
+                Err(_) => fails.push((format!("{}.missed_wakeup.cancel", fam), "a parked waiter did not return within 10 s of cancel()".to_string())),
+            }
+            Got::Parked
+        }
+    };
+    if fails.iter().all(|f| !f.0.ends_with("missed_wakeup.cancel")) { let _ = waiter.join(); }
+    TrkResult { line_head, kind, ops, got, fin: (sent, acked, cancelled), fails, lateness_ms, d_ms }
+}
+
+fn log_trickle(out: &mut Out, r: TrkResult, idx: u64) {
+    let fin = format!("{}:{}:{}", r.fin.0, r.fin.1, if r.fin.2 { 1 } else { 0 });
+    let line = format!("trk {} {} thr={} order=- got={} fin={}", idx, r.line_head, show_ops(&r.ops), r.got.show(), fin);
+    for (sig, detail) in &r.fails { out.oracle_fail(sig, detail, &[line.clone()]); }
+    let kind = match r.kind { Kind::Credit(_) => "credit", Kind::Reconnect => "reconnect" };
+    out.count(&format!("trk.{}.{}", kind, r.got.show().split(':').next().unwrap()));
+    out.add("trk.wakeups", r.ops.len() as u64);
+    out.add("trk.lateness_ms_total", r.lateness_ms as u64);
+    out.add("trk.deadline_ms_total", r.d_ms);
+    out.case(&line, &format!("{} {} {}", idx, r.got.show(), fin), true);
+}
+
+// ------------------------------------------------------------------------------------------
+// `race`: many fast rounds, waiter and signaller released together, start offset swept
+// ------------------------------------------------------------------------------------------
+/// Only paid when a wake-up is in fact lost.
+const RACE_WATCHDOG: Duration = Duration::from_secs(5);
+
+#[derive(Clone)]
+struct RaceRound { kind: Kind, window: u64, setup: Vec<Op>, ops: Vec<Op>, wdelay: u32, sdelay: u32, mid_delay: u32 }
+
+fn spin(n: u32) { for _ in 0..n { std::hint::spin_loop(); } }
+
+/// A round whose last op makes the waiter's condition true; optionally preceded by a wake-up that does not.
+fn race_round(rng: &mut Rng, i: u64) -> RaceRound {
+    let w = world(rng);
+    let reconnect = rng.chance(1, 2);
+    let covered: Vec<u64> = w.chunks.iter().map(|c| c.0).chain([w.sent]).collect();
+    let enabling = if reconnect {
+        if rng.chance(1, 2) { Op::Res(w.file, *rng.pick(&covered)) } else { Op::Cancel(rng.range(1, 9)) }
+    } else {
+        match rng.below(4) { 0 => Op::Cancel(rng.range(1, 9)), 1 => Op::Adv(other_file(rng, w.file)), 2 => Op::Res(w.file, w.sent), _ => Op::Ack(w.file, w.sent) }
+    };
+    let keep_full_below = (w.sent + w.len).saturating_sub(w.window).min(w.sent);
+    let style = i % 4;
+    let mut ops = Vec::new();
+    let (mut wdelay, mut sdelay, mut mid_delay) = (0u32, 0u32, 0u32);
+    match style {
+        0 | 1 => sdelay = (i / 4 % 200) as u32,                 // signaller a little later: hits the waiter's entry
+        2 => wdelay = (i / 4 % 64) as u32,                      // signaller first
+        _ => {
+            // re-entry: a wake-up that does not satisfy the condition, then the one that does
+            let pre = if keep_full_below > w.acked + 1 { Op::Ack(w.file, w.acked + 1) } else { Op::Ack(w.file, w.sent + 1).clone() };
+            let pre = if matches!(pre, Op::Ack(_, o) if o > w.sent) { Op::Sent(w.sent + w.scale) } else { pre };
+            ops.push(pre);
+            sdelay = 1500 + (i / 4 * 37 % 1500) as u32;
+            mid_delay = (i / 4 * 13 % 4000) as u32;
+        }
+    }
+    ops.push(enabling);
+    RaceRound { kind: if reconnect { Kind::Reconnect } else { Kind::Credit(w.len) }, window: w.window, setup: w.setup, ops, wdelay, sdelay, mid_delay }
+}
+
+/// Runs `rounds` until done, `budget` is used up, or failures make it pointless. Returns false to stop.
+fn race_batch(out: &mut Out, rounds: Vec<RaceRound>, idx: &mut u64, until: Instant) -> bool {
+    use std::sync::atomic::AtomicUsize;
+    let n = rounds.len();
+    let ctls: Arc<Vec<Arc<TransferControl>>> = Arc::new(rounds.iter().map(|r| {
+        let tc = TransferControl::new(r.window);
+        for op in &r.setup { apply(&tc, op); }
+        tc
+    }).collect());
+    let rounds = Arc::new(rounds);
+    let go = Arc::new(AtomicUsize::new(0));
+    let done = Arc::new(AtomicUsize::new(0));
+    let slots: Arc<Vec<Mutex<Option<Got>>>> = Arc::new((0..n).map(|_| Mutex::new(None)).collect());
+    let waiter = {
+        let (ctls, rounds, go, done, slots) = (ctls.clone(), rounds.clone(), go.clone(), done.clone(), slots.clone());
+        std::thread::spawn(move || {
+            for i in 0..n {
+                let mut spins = 0u32;
+                loop {
+                    let g = go.load(Ordering::Acquire);
+                    if g == usize::MAX { return; }
+                    if g == i + 1 { break; }
+                    spins += 1;
+                    if spins > 3000 { std::thread::yield_now(); } else { std::hint::spin_loop(); }
+                }
+                spin(rounds[i].wdelay);
+                let tc = &ctls[i];
+                let r = catch(|| match rounds[i].kind {
+                    Kind::Credit(len) => match tc.wait_for_credit(len, Instant::now() + FAR) {
+                        Ok(()) => Got::Ok,
+                        Err(CreditError::Cancelled(r)) => Got::Cancelled(r),
+                        Err(CreditError::Timeout) => Got::Timeout,
+                    },
+                    Kind::Reconnect => match tc.wait_for_reconnect(FAR) {
+                        ReconnectOutcome::ResumeReady(p) => Got::Resume(p.resume_at_offset),
+                        ReconnectOutcome::Cancelled(r) => Got::Cancelled(r),
+                        ReconnectOutcome::Timeout => Got::Timeout,
+                    },
+                });
+                *slots[i].lock().unwrap() = Some(r.unwrap_or(Got::Panic));
+                done.store(i + 1, Ordering::Release);
+            }
+        })
+    };
+    let wait_done = |i: usize, limit: Duration| -> bool {
+        let t = Instant::now();
+        let mut spins = 0u32;
+        loop {
+            if done.load(Ordering::Acquire) == i + 1 { return true; }
+            spins += 1;
+            if spins < 3000 { std::hint::spin_loop(); }
+            else if spins < 6000 { std::thread::yield_now(); }
+            else { std::thread::sleep(Duration::from_micros(100)); }
+            if spins >= 3000 && t.elapsed() > limit { return done.load(Ordering::Acquire) == i + 1; }
+        }
+    };
+    let mut keep_going = true;
+    for i in 0..n {
+        if Instant::now() > until { out.count("race.time_budget_reached"); keep_going = false; go.store(usize::MAX, Ordering::Release); break; }
+        let r = &rounds[i];
+        let tc = &ctls[i];
+        go.store(i + 1, Ordering::Release);
+        spin(r.sdelay);
+        let mut results = Vec::new();
+        for (j, op) in r.ops.iter().enumerate() {
+            if j > 0 { spin(r.mid_delay); }
+            results.push(catch(|| apply(tc, op)).unwrap_or(OpRes::ResumeErr));
+        }
+        let (sent, acked) = catch(|| tc.offsets()).unwrap_or((0, 0));
+        let cancelled = catch(|| tc.is_cancelled()).unwrap_or(true);
+        let must_return = cancelled || match &r.kind {
+            Kind::Credit(len) => { let inf = sent.saturating_sub(acked); inf == 0 || inf.saturating_add(*len) <= r.window }
+            Kind::Reconnect => results.iter().any(|x| matches!(x, OpRes::ResumeOk(_))),
+        };
+        let returned = wait_done(i, if must_return { RACE_WATCHDOG } else { Duration::from_millis(2) });
+        let mut cleanup_missed = false;
+        let got = if returned { slots[i].lock().unwrap().clone().unwrap_or(Got::Panic) } else {
+            let _ = catch(|| tc.cancel("cleanup"));
+            if !wait_done(i, WATCHDOG) { cleanup_missed = true; }
+            Got::Parked
+        };
+        *idx += 1;
+        let c = Case { tmo: false, imm: false, kind: r.kind.clone(), window: r.window, setup: r.setup.clone(), threads: vec![r.ops.clone()], seq: false };
+        let head = c.head(*idx).replacen("wake", "race", 1);
+        let fin = format!("{}:{}:{}", sent, acked, if cancelled { 1 } else { 0 });
+        let line = format!("{} order=- got={} fin={}", head, got.show(), fin);
+        let e = Exec { got: got.clone(), fin: (sent, acked, cancelled), order: None, must_return, snaps: vec![], results: vec![results], parked_seen: false,
+                       tmo_ok: None, cleanup_missed, entry_want: vec![], watchdog_s: RACE_WATCHDOG.as_secs() };
+        oracles(out, &c, &e, &line);
+        let kind = match r.kind { Kind::Credit(_) => "credit", Kind::Reconnect => "reconnect" };
+        out.count(&format!("race.{}.{}", kind, got.show().split(':').next().unwrap()));
+        out.count(match (r.ops.len(), r.wdelay > 0) { (2, _) => "race.reentry", (_, true) => "race.signaller_first", _ => "race.waiter_entry" });
+        if !must_return { out.count("race.not_enabling"); }
+        out.case(&line, &format!("{} {} {}", *idx, got.show(), fin), must_return);
+        if cleanup_missed { go.store(usize::MAX, Ordering::Release); return false; }
+        if out.oracle_failures >= MAX_FAILURES { go.store(usize::MAX, Ordering::Release); keep_going = false; break; }
+    }
+    if keep_going || out.oracle_failures < MAX_FAILURES { let _ = waiter.join(); }
+    keep_going
+}
+
+fn race_phase(out: &mut Out, rng: &mut Rng, idx: &mut u64, total: u64, budget: Duration, template: Option<&Case>) {
+    let until = Instant::now() + budget;
+    out.flush_each = false;
+    let mut i = 0u64;
+    while i < total && out.oracle_failures < MAX_FAILURES {
+        let n = (total - i).min(4000);
+        let rounds: Vec<RaceRound> = (0..n).map(|j| {
+            let mut r = race_round(rng, i + j);
+            if let Some(c) = template {
+                // replay: the recorded case, delays still swept
+                r.kind = c.kind.clone(); r.window = c.window; r.setup = c.setup.clone();
+                r.ops = c.threads.iter().flatten().cloned().collect();
+                if r.ops.len() < 2 { r.mid_delay = 0; if r.sdelay >= 1500 { r.sdelay = ((i + j) % 200) as u32; } }
+            }
+            r
+        }).collect();
+        i += n;
+        if !race_batch(out, rounds, idx, until) { break; }
+    }
+    out.flush_each = true;
+}
+
 // ------------------------------------------------------------------------------------------
 fn run_case(out: &mut Out, c: &Case, idx: u64, rng: &mut Rng) {
     let head = c.head(idx);
@@ -630,11 +919,23 @@ fn main() {
     let mut out = Out::new(&args.out);
     out.flush_each = true;
     let mut rng = Rng::new(args.seed);
-    out.rule = "one real thread in wait_for_credit/wait_for_reconnect (deadline 1 h) on a TransferControl whose window is full; the harness waits until /proc shows the waiter asleep (70%) or races its entry (30%); then 1-3 ops (ack: exact/insufficient/capped/stale/foreign, cancel, advance, resume: covered/uncovered/foreign, sent) from 1-3 threads with random yields/spins, signallers serialised by a harness lock (linearisation recorded) or free; values scaled by 1..2^40. Oracles: condition true in the real final state => waiter returns within 10 s; never Timeout; returned value matches a state that occurred. `tmo` cases: 1-31 ms deadline, 0-3 ops that cannot satisfy the condition (many of them notify), spread over the wait, must return Timeout, not before the deadline. `imm` cases: deadline already passed at entry and condition already true: the matching value must be returned, not Timeout. Non-trivial = the final state obliges the waiter to return, or a tmo case; distinct by op line (incl. observed order/outcome)".into();
+    out.rule = "one real thread in wait_for_credit/wait_for_reconnect (deadline 1 h) on a TransferControl whose window is full; the harness waits until /proc shows the waiter asleep (70%) or races its entry (30%); then 1-3 ops (ack: exact/insufficient/capped/stale/foreign, cancel, advance, resume: covered/uncovered/foreign, sent) from 1-3 threads with random yields/spins, signallers serialised by a harness lock (linearisation recorded) or free; values scaled by 1..2^40. Oracles: condition true in the real final state => waiter returns within 10 s; never Timeout; returned value matches a state that occurred. `tmo` cases: 1-31 ms deadline, 0-3 ops that cannot satisfy the condition (many of them notify), spread over the wait, must return Timeout, not before the deadline. `imm` cases: deadline already passed at entry and condition already true: the matching value must be returned, not Timeout. `race` rounds: waiter and signaller released together from a spin barrier, start offset swept (signaller 0-200 spins later / waiter 0-64 spins later / a non-enabling wake-up then the enabling one 0-4000 spins apart), last op makes the condition true, 5 s watchdog. `trk` cases: 300-400 ms deadline, a non-enabling ack every ~deadline/4, must return Timeout no later than deadline + 3 s. Non-trivial = the final state obliges the waiter to return, or a tmo case; distinct by op line (incl. observed order/outcome)".into();
     let mut idx = 0u64;
     if let Some(lines) = args.replay_ops() {
         for l in lines {
             if let Some(c) = Case::parse(&l) {
+                if l.starts_with("trk ") {
+                    for _ in 0..2 {
+                        idx += 1;
+                        let r = run_trickle(c.kind.clone(), c.window, c.setup.clone(), 300 + rng.below(101), rng.next());
+                        log_trickle(&mut out, r, idx);
+                    }
+                    continue;
+                }
+                if l.starts_with("race ") {
+                    race_phase(&mut out, &mut rng, &mut idx, 40000, Duration::from_secs(30), Some(&c));
+                    continue;
+                }
                 for _ in 0..REPLAY_RUNS {
                     if out.oracle_failures >= MAX_FAILURES { break; }
                     idx += 1;
@@ -644,9 +945,28 @@ fn main() {
         }
     } else {
         let (n_wake, n_tmo) = if args.thorough() { (100000, 2500) } else { (3000, 150) };
+        // trickle cases sleep most of the time: they run beside everything else
+        let n_trk = if args.thorough() { 24 } else { 8 };
+        let trk: Vec<_> = (0..n_trk).map(|_| {
+            let (kind, window, setup, d_ms) = trk_case(&mut rng);
+            let seed = rng.next();
+            std::thread::spawn(move || run_trickle(kind, window, setup, d_ms, seed))
+        }).collect();
+        // entry races
+        let (n_race, race_budget) = if args.thorough() { (400000, Duration::from_secs(150)) } else { (30000, Duration::from_secs(8)) };
+        let t_race = Instant::now();
+        race_phase(&mut out, &mut rng, &mut idx, n_race, race_budget, None);
+        out.extra.insert("race_phase_ms".into(), serde_json::json!(t_race.elapsed().as_millis() as u64));
+        eprintln!("race phase: {} ms", t_race.elapsed().as_millis());
         // tmo cases are spread among the wake cases
         let every = n_wake / n_tmo;
+        // on a crowded machine the quick tier stops generating after a while (coverage shrinks, the verdict does not change)
+        let wake_until = Instant::now() + if args.thorough() { Duration::from_secs(600) } else { Duration::from_secs(24) };
         for i in 0..n_wake {
+            if i % 64 == 0 && Instant::now() > wake_until {
+                out.count("wake.time_budget_reached");
+                break;
+            }
             if out.oracle_failures >= MAX_FAILURES {
                 out.count("stopped_early_after_failures");
                 break;
@@ -662,6 +982,9 @@ fn main() {
                 let c = gen_imm(&mut rng);
                 run_case(&mut out, &c, idx, &mut rng);
             }
+        }
+        for h in trk {
+            if let Ok(r) = h.join() { idx += 1; log_trickle(&mut out, r, idx); }
         }
     }
     out.finish();
